@@ -403,6 +403,28 @@ theorem buy_order_id_validator_not_injective_counterexample :
     a ≠ b ∧ isValidBuyOrderId a = true ∧ isValidBuyOrderId b = true ∧
       parseBuyOrderId a = parseBuyOrderId b ∧ createBuyOrderId .name 1 = some a := by decide
 
+/-- … and that is the only looseness: a valid id whose number carries no leading zero IS the id
+    `CreateBuyOrderId` hands out for the (type, number) it decomposes to — on canonical ids the
+    decomposition is a bijection with (type, positive uint64) -/
+theorem buy_order_id_canonical_partial (id : Bytes) (t : AssetType) (n : Nat)
+    (hp : parseBuyOrderId id = some (t, n)) (hlead : ∀ c cs, id.drop 2 = c :: cs → c ≠ 48) :
+    createBuyOrderId t n = some id := by
+  obtain ⟨hshape, hnum, hpos⟩ := parseBuyOrderId_some id t n hp
+  have hn : n < 2 ^ 64 ∧ id.drop 2 ≠ [] ∧ decValAux 0 (id.drop 2) = some n := by
+    unfold parseU64 at hnum
+    split at hnum
+    · simp at hnum
+    · rename_i hne
+      split at hnum
+      · rename_i v hv
+        split at hnum
+        · cases hnum
+          exact ⟨by assumption, by intro e; rw [e] at hne; simp at hne, hv⟩
+        · simp at hnum
+      · simp at hnum
+  have hc := digits_canonical (id.drop 2) n hlead hn.2.1 hn.2.2
+  rw [(buy_order_id_created_valid t n hpos hn.1).1, ← hc, ← hshape]
+
 -- non-vacuity (buy-order ids)
 example : createBuyOrderId .alias 18446744073709551615 =
     some ([50, 48] ++ [49,56,52,52,54,55,52,52,48,55,51,55,48,57,53,53,49,54,49,53]) := by decide
@@ -633,7 +655,7 @@ theorem lockup_account_scan_exact_partial (u : Bool) (A B : Bytes) (d : Int) (id
 
 /-- the full statement (no length hypothesis) is false: the owner prefix carries no trailing separator,
     so the scan for a 20-byte address returns the entry of a 32-byte address that extends it (the hub's
-    address verifier admits both lengths).  This needs a 32-byte (module/ICA) address whose first 20
+    address verifier accepts both lengths).  This needs a 32-byte (module/ICA) address whose first 20
     bytes equal another account's 20-byte address, i.e. a 160-bit hash-prefix collision: recorded as an
     assumption, not as a finding. -/
 theorem lockup_account_scan_exact_counterexample :
